@@ -154,6 +154,86 @@ func fieldHistory(kind string, observers bool) string {
 		observe(p)
 		p.Typ = types.I64
 		ub.NewCall(f, constant.NewInt(types.I64, 1))
+	case "invoke-invokee", "call-callee", "callbr-callee":
+		g32 := m.NewFunc("g32", types.I32)
+		g64 := m.NewFunc("g64", types.I64)
+		b1, b2 := user.NewBlock("b1"), user.NewBlock("b2")
+		b1.NewRet(nil)
+		b2.NewRet(nil)
+		switch kind {
+		case "invoke-invokee":
+			t := ub.NewInvoke(g32, nil, b1, b2)
+			t.SetName("r")
+			observe(t)
+			t.Invokee = g64
+		case "callbr-callee":
+			t := ub.NewCallBr(g32, nil, b1, b2)
+			t.SetName("r")
+			observe(t)
+			t.Callee = g64
+		default:
+			c := ub.NewCall(g32)
+			c.SetName("r")
+			observe(c)
+			c.Callee = g64
+			ub.NewBr(b1)
+		}
+		return safe(func([]string) string { return hexOut([]byte(m.String())) }, nil)
+	case "add-operands", "icmp-operands", "select-operands", "phi-incoming", "extractvalue-x", "gep-src", "cast-from":
+		p32 := ir.NewParam("p32", types.I32)
+		p64 := ir.NewParam("p64", types.I64)
+		agg32 := ir.NewParam("a32", types.NewStruct(types.I32))
+		agg64 := ir.NewParam("a64", types.NewStruct(types.I64))
+		ptr32 := ir.NewParam("q32", types.NewPointer(types.NewArray(2, types.I32)))
+		ptr64 := ir.NewParam("q64", types.NewPointer(types.NewArray(2, types.I64)))
+		cond := ir.NewParam("c", types.I1)
+		user.Params = append(user.Params, p32, p64, agg32, agg64, ptr32, ptr64, cond)
+		user.Sig.Params = []types.Type{types.I32, types.I64, agg32.Typ, agg64.Typ, ptr32.Typ, ptr64.Typ, types.I1}
+		switch kind {
+		case "add-operands":
+			i := ub.NewAdd(p32, p32)
+			i.SetName("r")
+			observe(i)
+			i.X, i.Y = p64, p64
+			ub.Insts = append(ub.Insts, &ir.InstFreeze{X: i})
+		case "icmp-operands":
+			i := ub.NewICmp(1, p32, p32)
+			i.SetName("r")
+			observe(i)
+			i.X, i.Y = p64, p64
+			ub.Insts = append(ub.Insts, &ir.InstFreeze{X: i})
+		case "select-operands":
+			i := ub.NewSelect(cond, p32, p32)
+			i.SetName("r")
+			observe(i)
+			i.ValueTrue, i.ValueFalse = p64, p64
+			ub.Insts = append(ub.Insts, &ir.InstFreeze{X: i})
+		case "phi-incoming":
+			i := ub.NewPhi(ir.NewIncoming(p32, ub))
+			i.SetName("r")
+			observe(i)
+			i.Incs[0].X = p64
+			ub.Insts = append(ub.Insts, &ir.InstFreeze{X: i})
+		case "extractvalue-x":
+			i := ub.NewExtractValue(agg32, 0)
+			i.SetName("r")
+			observe(i)
+			i.X = agg64
+			ub.Insts = append(ub.Insts, &ir.InstFreeze{X: i})
+		case "gep-src":
+			zero := constant.NewInt(types.I64, 0)
+			i := ub.NewGetElementPtr(types.NewArray(2, types.I32), ptr32, zero, zero)
+			i.SetName("r")
+			observe(i)
+			i.ElemType, i.Src = types.NewArray(2, types.I64), ptr64
+			ub.Insts = append(ub.Insts, &ir.InstFreeze{X: i})
+		case "cast-from":
+			i := ub.NewZExt(p32, types.I64)
+			i.SetName("r")
+			observe(i)
+			i.To = types.I128
+			ub.Insts = append(ub.Insts, &ir.InstFreeze{X: i})
+		}
 	default:
 		return "unknown-kind"
 	}
